@@ -1133,8 +1133,20 @@ let codec_step (f : string list) : string =
   | ["recover"; t; k; base; lhx; ihx] ->
     (match recover_bytes crc32c fnv64a (params_of_toks t k) (z_of_string base) (bytes_of_hex lhx) (opt_hex ihx) with
      | Err e -> err e
-     | Ok (nl, ni) -> Printf.sprintf "ok %s %s" (hex_or_empty nl)
-                        (match ni with None -> "none" | Some b -> hex_or_empty b))
+     | Ok (nl, ni) ->
+       (* the file-system steps of Segment.Recover according to RecoverCrash.recover_prog, in the words of the FS tap *)
+       let fname = function RfLog -> "log" | RfRtmp -> "rtmp" | RfIdx -> "idx" | RfItmp -> "itmp" in
+       let render = function
+         | RRemove f -> "remove:" ^ fname f
+         | RCreate (f, hdr) -> Printf.sprintf "create:%s:%d" (fname f) (List.length hdr)
+         | RWrite (f, bs) -> Printf.sprintf "write:%s:%d" (fname f) (List.length bs)
+         | RFsync f -> "fsync:" ^ fname f
+         | RRename (a, b) -> Printf.sprintf "rename:%s>%s" (fname a) (fname b) in
+       let steps = (match recover_prog crc32c fnv64a (params_of_toks t k) (z_of_string base) (bytes_of_hex lhx) (opt_hex ihx) with
+           | Err _ -> "?"
+           | Ok prog -> String.concat "," (List.map render prog)) in
+       Printf.sprintf "ok %s %s steps=%s" (hex_or_empty nl)
+         (match ni with None -> "none" | Some b -> hex_or_empty b) steps)
   | "mkseg" :: v :: iv :: t :: k :: _base :: ms ->
     (* a clean segment: log bytes and the derived index bytes *)
     let v = ver_of v and p = params_of_toks t k in
@@ -1268,6 +1280,7 @@ let run_ccheck (path : string) =
             else begin
               let out = (match r with
                   | "ok" :: nl :: ni :: rest ->
+                    let rest = List.filter (fun x -> not (String.length x >= 6 && String.sub x 0 6 = "steps=")) rest in
                     if rest <> [] then (fail "recover_leaves_extra_files" r; None)
                     else Some (bytes_of_hex nl, opt_hex ni)
                   | _ -> None) in
